@@ -170,6 +170,13 @@ func TestVerifC03Names(t *testing.T) {
 		"Resolve / SignJWT / SignJWS / SignDPoP / DecryptJWE / Delete, and given to GetPrivateKey / PrivateKeyExists / SavePrivateKey / DeletePrivateKey / NewPrivateKey of the wrapped back-end, " +
 		"with decoy private keys planted where path-like names would point; every key ID of a second alphabet (#, :, %3A, path-like did:web ids, .., NUL, empty, 300 chars, SQL metacharacters) is used to create a key; " +
 		"then for EVERY created key id: SignJWT / SignJWS / SignDPoP / a JWE addressed to it, verified against the published key of every key id. A case = one (name or kid, operation) pair")
+	if os.Getenv("VERIF_REPLAY") != "" {
+		var rc map[string]any
+		if !r.ReplayCase(&rc) {
+			return // the replay file belongs to another part
+		}
+		// the alphabet is small: a replay runs all of it
+	}
 	ctx := audit.TestContext()
 	l := newLab(t)
 	// a real key: in-namespace control
